@@ -224,6 +224,7 @@ def report(prop, spec, args, seed, results, extra, t0):
     used_summaries = set()
     samples = []
     vcs = 0
+    pending = []
     for r in results:
         vcs += r["vcs"]
         solver_time += r["solver_time"]
@@ -271,12 +272,26 @@ def report(prop, spec, args, seed, results, extra, t0):
             rp = os.path.join(VERIF, "replays", "%s_%s_%s.json" % (prop, r["harness"], re.sub(r"[^A-Za-z0-9_.-]", "_", f["name"])))
             doc = {"property": prop, "harness": r["base_harness"], "case": r["case"], "cases": r.get("cases_fn"), "sidecar": r["module_file"], "obligation": full,
                    "obligation_name": f["name"], "model": f["model"], "uses": r["uses"], "loops": r["loops"],
-                   "solver": f["solver"], "solver_output": f["detail"], "location": f["loc"], "kind": "harness"}
-            json.dump(doc, open(rp, "w"), indent=1, default=str)
-            nat = native_replay(rp) if f["model"] is not None else {"outcome": "no-model"}
-            doc["native_replay"] = nat
-            json.dump(doc, open(rp, "w"), indent=1, default=str)
-            violations.append((full, rp, nat.get("outcome") == "confirmed", f))
+                   "solver": f["solver"], "solver_output": f["detail"], "location": f["loc"], "kind": "harness",
+                   "case_desc": r.get("case_desc")}
+            pending.append((full, rp, doc, f))
+    # native replay of counter-models (parallel, capped)
+    CAP = 12
+    pending.sort(key=lambda x: x[0])
+    more_failed = [x[0] for x in pending[CAP:]]
+    from concurrent.futures import ThreadPoolExecutor
+
+    def _replay(item):
+        full, rp, doc, f = item
+        json.dump(doc, open(rp, "w"), indent=1, default=str)
+        nat = native_replay(rp) if f["model"] is not None else {"outcome": "no-model"}
+        doc["native_replay"] = nat
+        json.dump(doc, open(rp, "w"), indent=1, default=str)
+        return (full, rp, nat.get("outcome") == "confirmed", f)
+
+    with ThreadPoolExecutor(8) as tp:
+        for v in tp.map(_replay, pending[:CAP]):
+            violations.append(v)
     for g in extra["ground"]:
         for o in g["obligations"]:
             full = "%s/%s/%s" % (prop, g["name"], o["name"])
@@ -323,6 +338,8 @@ def report(prop, spec, args, seed, results, extra, t0):
         status = 3
     if status == 0 and undecided:
         status = 2
+    if more_failed:
+        print("  ... and %d more failed obligations (not replayed): %s" % (len(more_failed), ", ".join(more_failed[:5])))
     for u in undecided:
         print("UNDECIDED %s" % u)
     for u in faults:
@@ -348,7 +365,7 @@ def report(prop, spec, args, seed, results, extra, t0):
             "rule": "one evaluation per verification condition (obligation x path); distinct = named obligations",
         },
         "assumptions": spec.get("assumptions", []) + assumed + ["sidecar assume(): " + a for a in scan_assumes(prop)] + DROPPED,
-        "wall_s": round(wall, 2), "violations": len(violations),
+        "wall_s": round(wall, 2), "violations": len(violations) + len(more_failed),
     }
     json.dump(ev, open(os.path.join(VERIF, "evidence", "%s.json" % prop), "w"), indent=1, default=str)
     print("%s: %d/%d obligations discharged (%d VCs, %d harnesses, %.1fs wall, %.1fs solver) -> exit %d" % (
